@@ -233,7 +233,27 @@ func TestVerifC11Client(t *testing.T) {
 	}
 	rep := &simReport{Extra: map[string]any{}}
 	defer simWriteReport("c11c_result.json", rep)
+	// B1: the cases are Malform.tla's ClientCases as exported by TLC; this file only knows how to produce each of them
+	type specCase struct{ Api, Target, Case string }
+	spec, err := c08readNDJSON[specCase](os.Getenv("VERIF_IN") + "/c11c_cases.ndjson")
+	if err != nil {
+		t.Fatal(err)
+	}
+	known := map[string]c11cCase{}
 	for _, cs := range c11cCases() {
+		known[cs.name+"|"+cs.api] = cs
+	}
+	var todo []c11cCase
+	for _, sc := range spec {
+		cs, ok := known[sc.Target+"/"+sc.Case+"|"+sc.Api]
+		if !ok {
+			rep.bad("harness:c11c-unknown-case", "the specification lists client-level case %+v which the driver cannot produce", sc)
+			continue
+		}
+		todo = append(todo, cs)
+	}
+	rep.Extra["spec_cases"] = len(spec)
+	for _, cs := range todo {
 		for _, nth := range []int{1, 2} {
 			name := fmt.Sprintf("%s/api=%s/response=%d", cs.name, cs.api, nth)
 			synctest.Test(t, func(t *testing.T) {
